@@ -6,6 +6,7 @@ import GoRes.Driver.Store
 import GoRes.Driver.Req
 import GoRes.Driver.Pool
 import GoRes.Driver.Idx
+import GoRes.Driver.Codec
 /-! `gores-driver <domain>`: one op line in, one line `model<TAB>spec<TAB>tag` out. -/
 open GoRes GoRes.Wire
 
@@ -41,6 +42,7 @@ def stepLine (dom : String) (st : DState) (full : String) : DState × String :=
     | "idx" =>
       let (is, m, s, t) := GoRes.Driver.Idx.run st.idx args impl
       ({ st with idx := is }, m ++ "\t" ++ s ++ "\t" ++ t)
+    | "codec" => let (m, s, t) := GoRes.Driver.Codec.run args; (st, m ++ "\t" ++ s ++ "\t" ++ t)
     | "subs" => let (m, s, t) := GoRes.Driver.Subs.run args impl; (st, m ++ "\t" ++ s ++ "\t" ++ t)
     | _ => (st, "bad-domain\t-\tbad")
 
